@@ -385,6 +385,80 @@ async def _blockget(case, loop, root):
     return Outcome(vio, ["szx=%d" % case["szx"]], nblocks > 2)
 
 
+def run_rewrite(case):
+    """block-by-block reads around a replacement of the file: an abandoned (or completed) transfer, then PUT or
+    DELETE+PUT, then a complete transfer -- which must return the file as it is now"""
+    mimetypes.init()
+    base, root, outside = make_sandbox([(("f.bin",), case["size1"])])
+    loop = asyncio.new_event_loop()
+    try:
+        return loop.run_until_complete(_rewrite(case, loop, root))
+    finally:
+        loop.close()
+        shutil.rmtree(base, ignore_errors=True)
+
+
+async def _rewrite(case, loop, root):
+    from pathlib import Path
+
+    from aiocoap.cli.fileserver import FileServer
+    from aiocoap.protocol import Context
+
+    vio = []
+    fs = FileServer(Path(root), _log, write=True)
+    ctx = Context(loop=loop, serversite=fs, loggername="vp-c19.ctx")
+    ctx.log.setLevel(100)
+    path = ["f.bin"]
+    szx = case["szx"]
+    for num in range(case["pre"]):
+        resp = await do_request(ctx, loop, 1, path, {"block2": (num, False, szx)}, b"")
+        if int(resp.code) != 69 or resp.opt.block2 is None or not resp.opt.block2.more:
+            break
+    new = file_bytes(case["size2"], 9)
+    if case["how"] == "delete+put":
+        resp = await do_request(ctx, loop, 4, path, {}, b"")
+        if int(resp.code) != 66:
+            vio.append(V("C19/delete-fails", str(resp.code)))
+    resp = await do_request(ctx, loop, 3, path, {}, new)
+    if (int(resp.code) >> 5) != 2:
+        vio.append(V("C19/put-fails", str(resp.code)))
+        return Outcome(vio, [case["how"]], False)
+    with open(os.path.join(root, "f.bin"), "rb") as f:
+        on_disk = f.read()
+    if on_disk != new:
+        vio.append(V("C19/put-content-differs", "%d bytes on disk, %d sent" % (len(on_disk), len(new))))
+    szx2 = case["szx2"]
+    got = b""
+    num = 0
+    while True:
+        resp = await do_request(ctx, loop, 1, path, {"block2": (num, False, szx2)}, b"")
+        if int(resp.code) != 69:
+            vio.append(V("C19/blockwise-get-fails", "after the file was replaced: block %d -> %s" % (num, resp.code)))
+            break
+        got += bytes(resp.payload)
+        b2 = resp.opt.block2
+        if b2 is None or not b2.more:
+            break
+        num += 1
+        if num > 400:
+            vio.append(V("C19/blockwise-get-never-ends", ""))
+            break
+    if not vio and got != on_disk:
+        first = next((i for i, (a_, b_) in enumerate(zip(got, on_disk)) if a_ != b_), min(len(got), len(on_disk)))
+        vio.append(V("C19/blockwise-get-differs-from-file", "after %s (%d -> %d bytes, %d block(s) of the old file fetched before at szx %d): reassembled %d bytes, first difference at %d" % (case["how"], case["size1"], case["size2"], case["pre"], szx, len(got), first)))
+    return Outcome(vio, [case["how"], "pre=%d" % case["pre"]], case["pre"] >= 1)
+
+
+def cases_rewrite():
+    for size1 in (40, 1025, 3000):
+        for size2 in (0, 33, 1025, 3000):
+            for szx in (0, 2, 6):
+                for szx2 in (0, 6):
+                    for pre in (0, 1, 2, 1000):
+                        for how in ("put", "delete+put"):
+                            yield {"size1": size1, "size2": size2, "szx": szx, "szx2": szx2, "pre": pre, "how": how}
+
+
 def cases_blockget():
     for size in FILE_SIZES + [64, 65, 2048, 2049, 5000]:
         for szx in range(8):
@@ -470,7 +544,7 @@ RULE = (
     "'a/b', '/', NUL, '..%2f', '%2e%2e', long names, the components of the absolute path of the outside canary / a new outside file / the outside directory / /etc/hostname behind a leading empty component, "
     "dot-dot runs), If-Match / If-None-Match / ETag, Observe 0/1 on any method, Block1, Block2 (num, szx), payloads. Oracle: a file-system interposer (audit hook for open/listdir/scandir/rename/remove/mkdir/... plus os.stat/lstat wrappers) "
     "records every path touched during each request -- each must resolve (realpath) inside the root; a snapshot (names, contents, mtimes) of everything outside the root is unchanged, and with write off the inside too; "
-    "hostile paths never yield 2.xx; successful PUT/DELETE/GET on well-behaved paths have the expected effect/content. blockget: complete enumeration of file size x szx 0-7 (7 = BERT, 1024-byte units) x explicit/implicit first block: the "
+    "hostile paths never yield 2.xx; successful PUT/DELETE/GET on well-behaved paths have the expected effect/content. rewrite: complete enumeration of (old size, new size, szx before, szx after, 0/1/2/all blocks of the old file fetched before, PUT or DELETE+PUT): the block-by-block read after the replacement equals the file as it is now. blockget: complete enumeration of file size x szx 0-7 (7 = BERT, 1024-byte units) x explicit/implicit first block: the "
     "reassembled blocks equal the file, M set exactly while bytes remain, one ETag. Non-trivial = history with a hostile path (empty non-final or leading component, dot segment, separator); blockget with > 2 blocks. "
     "Distinct = SHA-1 of the case."
 )
@@ -481,6 +555,7 @@ def build(tier):
         [
             Sub("histories", run_case, strategy=_case, budget={"quick": 1500, "thorough": 30000}, max_wall={"quick": 55, "thorough": 2400}),
             Sub("blockget", run_blockget, cases=cases_blockget, exhaustive=True),
+            Sub("rewrite", run_rewrite, cases=cases_rewrite, exhaustive=True),
         ],
         RULE,
         assumptions=[
